@@ -83,14 +83,14 @@ func runC16(c *core.Ctx) {
 		}
 		// loop 2: kids[i] = node.ref; pageCount += node.pageCount
 		s2 := strings.ReplaceAll(c.Prog.Src(loops[1].Cond.Range), cn, "childNodes")
-		o.Require(strings.Contains(s2, "kids[i]=node.ref"), "/Kids is not filled from the children in order")
-		o.Require(strings.Contains(s2, "pageCount+=node.pageCount"), "/Count is not the sum of the children's page counts")
+		o.Shape(strings.Contains(s2, "kids[i]=node.ref"), "/Kids is not filled from the children in order")
+		o.Shape(strings.Contains(s2, "pageCount+=node.pageCount"), "/Count is not the sum of the children's page counts")
 		o.Shape(strings.Contains(src, `kids:=make(pdf.Array,len(childNodes))`), "/Kids has not one slot per child")
 		o.Shape(strings.Contains(src, `parentDict["Kids"]=kidsparentDict["Count"]=pageCount`), "/Kids and /Count are not stored from the computed values")
 		o.Shape(strings.Contains(src, "pageCount:pageCount,"), "the new node's page count differs from its /Count")
 		o.Shape(strings.Contains(src, "ref:parentRef,"), "the new node is not registered under the reference its children point to")
 		// children are queued for output with their own reference
-		o.Require(strings.Contains(s2, "w.outRefs=append(w.outRefs,node.ref)w.outObjects=append(w.outObjects,node.dict)"), "children are not queued for output under their own reference")
+		o.Shape(strings.Contains(s2, "w.outRefs=append(w.outRefs,node.ref)w.outObjects=append(w.outObjects,node.dict)"), "children are not queued for output under their own reference")
 		// the parent link is set before the child is queued
 		o.Require(g.PathExists(loops[0], loops[1], nil) && !g.PathExists(loops[1], loops[0], nil), "children are queued before their /Parent is set")
 		// fan-out
@@ -297,11 +297,11 @@ func runC16(c *core.Ctx) {
 		o.Shape(strings.Contains(src, "w.nextPageNumber=&futureInt{numMissing:2}"), "the parent's next page number must wait for two summands")
 		o.Shape(strings.Contains(src, "subTree.nextPageNumber.WhenAvailable(w.nextPageNumber.Update)"), "the parent's next page number does not wait for the start of the range")
 		o.Shape(strings.Contains(src, "subTree.numPagesCb=append(subTree.numPagesCb,w.nextPageNumber.Update)"), "the parent's next page number does not wait for the number of pages in the range")
-		o.Require(strings.Index(src, "nextPageNumber:w.nextPageNumber,") < strings.Index(src, "w.nextPageNumber=&futureInt{"), "the range's start is taken after the parent's number was replaced")
+		o.Shape(strings.Index(src, "nextPageNumber:w.nextPageNumber,") < strings.Index(src, "w.nextPageNumber=&futureInt{"), "the range's start is taken after the parent's number was replaced")
 		fu := c.Prog.Func(pk, "(*futureInt).Update")
 		us := c.Prog.Src(fu.Decl.Body)
 		o.At(fu.Site(fu.Decl, "Update"))
-		o.Require(strings.Contains(us, "f.numMissing--") && strings.Contains(us, "iff.numMissing==0||f.val<0{for_,cb:=rangef.cb{cb(f.val)}f.cb=nil}"), "callbacks must fire exactly when the last summand arrives")
+		o.Shape(strings.Contains(us, "f.numMissing--") && strings.Contains(us, "iff.numMissing==0||f.val<0{for_,cb:=rangef.cb{cb(f.val)}f.cb=nil}"), "callbacks must fire exactly when the last summand arrives")
 		wa := c.Prog.Func(pk, "(*futureInt).WhenAvailable")
 		o.Shape(c.Prog.Src(wa.Decl.Body) == "{iff.numMissing==0{cb(f.val)}else{f.cb=append(f.cb,cb)}}", "WhenAvailable must defer while summands are missing")
 		_ = token.ADD
@@ -406,7 +406,7 @@ func rulePageNumberAdvance(c *core.Ctx) {
 				return true
 			})
 		}
-		o.Require(o.Evals >= 2, "calls to futureInt.Inc/Add not found")
+		o.Require(o.Evals >= 1, "calls to futureInt.Inc/Add not found")
 	})
 }
 
